@@ -80,6 +80,9 @@ def main(argv: Sequence[str]) -> None:
 
     LOGGER.info("Using schema file %s", os.fspath(schema_file))
     schema = json.load(schema_file.open("rb"))
+    # The schema file only carries definitions (it has no root "$ref"), so validating
+    # against it as-is accepts any document. Validate against the MetaModel definition.
+    model_schema = {"$ref": "#/definitions/MetaModel", **schema}
 
     if args.model:
         model_files = [pathlib.Path(m) for m in args.model]
@@ -90,7 +93,7 @@ def main(argv: Sequence[str]) -> None:
     for model_file in model_files:
         LOGGER.info("Validating model file %s", os.fspath(model_file))
         json_model = json.load(model_file.open("rb"))
-        jsonschema.validate(json_model, schema)
+        jsonschema.validate(json_model, model_schema)
         json_models.append(json_model)
 
     plugin = args.plugin
